@@ -62,6 +62,9 @@ Module pkg_eval_vals.
 End pkg_eval_vals.
 
 Module pkg_cli.
+  Definition VerifC32FinalRedraw : Z := 2.
+  Definition VerifC32FullRedraw : Z := 1.
+  Definition VerifC32InputChSize : Z := 128.
   Definition finalRedraw : Z := 2.
   Definition fullRedraw : Z := 1.
   Definition inputChSize : Z := 128.
@@ -157,6 +160,7 @@ Module pkg_getopt.
 End pkg_getopt.
 
 Module pkg_edit_highlight.
+  Definition VerifCommandType : list N := (hx "636f6d6d616e64"%string).
   Definition barewordRegion : list N := (hx "62617265776f7264"%string).
   Definition commandRegion : list N := (hx "636f6d6d616e64"%string).
   Definition commentRegion : list N := (hx "636f6d6d656e74"%string).
